@@ -13,12 +13,18 @@ META = {
  'C03': ('§4 C03', 'interprocedural typestate (must-pass-through) + channel typestate',
          'Decides structural necessary conditions: every return of the control goroutine and the failed-initialisation return pass through a restore that ends in a confirmed mode switch-back to the recorded non-manual mode or SetPwm(255); the mode write is read back; the signal actor cancels the shared context; the notify channel is never closed without signal.Stop.',
          'driver behaviour, timing and a failing final PWM write are not decided'),
+ 'C04': ('§4 C04', 'units-of-measure inference (dimension type inference by unification over SSA) + value-provenance/must-pass-through rule + monotonicity abstract interpretation',
+         'Decides three structural necessary conditions of "one steady target, the same for every algorithm": (R-scale) no value on the fan scale [min,max]/raw PWM is combined with, stored as, or passed for a value on the loop scale 0..255 anywhere in the controller and control-loop packages - in particular what ControlLoop.Cycle receives as current is on the same scale as its target; (R-feedback) that current value is the previous clamped result of Cycle, stored on every successful cycle; (R-mono-steady) the request is non-decreasing in the curve value through the direct loop, clamp and rescale.',
+         'settling time, history independence (PID wind-up), PID within one step, equality of fixed points, the per-cycle difference bound and monotone approach are dynamics (not decided); dimension seeds are the documented meaning of the Fan/SpeedCurve/ControlLoop interfaces'),
  'C05': ('§4 C05', 'typestate + guarded-path rules + sibling term agreement',
          'Decides: every successful cycle re-asserts manual mode (guarded only by ControlMode support); the write is skipped only when a fresh successful read equals the expected value; the third-party counter is incremented only under a fresh successful read differing from the same expected-value term the writer uses.',
          'assumes the fan reads back what was written (quantifier)'),
  'C06': ('§4 C06', 'symbolic range analysis with assume/guarantee on SpeedCurve.Evaluate',
          'Decides only the range clause 0..255 for linear(min/max), PID, and function types sum/difference/minimum/maximum/default; agreement with the documented function, delta/average/steps are not decided.',
          'assumes finite non-NaN sensor values and min<max; PidLoop.Loop assumed non-NaN'),
+ 'C07': ('§4 C07', 'monotonicity analysis (sign-of-dependence abstract interpretation over SSA, piecewise definitions ordered with the symbolic range analysis)',
+         'Decides, per code form, that the output is non-decreasing in the designated input: linear min/max ramp in the smoothed temperature (pieces ordered around the truncated ramp), the step-form wrapper and the interpolating expression inside one segment, function curves sum/minimum/maximum/average in every member value, DirectControlLoop.Cycle in its target, the target computation (curve value -> request) and the write routine (request -> value handed to Fan.SetPwm).',
+         'between different interpolation segments and inside util.FindClosest monotonicity is a stated hypothesis (relational loop invariants; not decided); premises of the property (non-decreasing steps / PWM map, min<max) and maxPwmChangePerCycle >= 0, fan max >= min are recorded hypotheses; IEEE rounding assumed monotone'),
  'C08': ('§4 C08', 'error-propagation path rules + interprocedural taint (non-finite floats)',
          'Decides the fault clause (no Sensor.GetValue converts a failed read into a value; the monitor never updates the average after a failed read; no value parsed by strconv.ParseFloat reaches the average without IsNaN/IsInf guards) and the one-step hull clause in real arithmetic (the stored average is UpdateSimpleMovingAvg(old, window, reading) of the same sensor, which is proved to lie between old average and reading for window >= 1).',
          'floating-point rounding and the geometric convergence rate are not decided'),
@@ -59,10 +65,7 @@ META = {
          'Decides a may-race over-approximation: every (field, thread-class pair) with a write and disjoint must-locksets is reported; today\'s pairs are recorded as known findings, any new pair is a violation.',
          'type-based object abstraction with private/shared context; only mutex synchronisation modelled'),
 }
-NA = {
- 'C04': 'numerical closed-loop dynamics over unbounded histories (settling time, equal fixed points across algorithms, PID within one step): no sound static bound is in reach, and the only shape-level clause would be a frozen-fragment proxy (DESIGN §4 C04, §5)',
- 'C07': 'monotonicity is a 2-safety numerical property through float32 rounding, truncation, a binary search and a map lookup; no sound relational static argument is in reach of the tools present (DESIGN §4 C07, §5)',
-}
+NA = {}
 checks = []
 na = []
 for i in range(1, 21):
@@ -88,7 +91,7 @@ m = {
  'version': 1,
  'setup_cmd': 'cd /verif/checker && GOFLAGS=-mod=mod GOPROXY=off GOSUMDB=off GOTOOLCHAIN=local GOWORK=off go build -o ../bin/f2gcheck ./cmd/f2gcheck && GOFLAGS=-mod=mod GOPROXY=off GOSUMDB=off GOTOOLCHAIN=local GOWORK=off go test ./...',
  'hooks': {'guard': 'verif', 'enable': 'none needed: the checks read the source of /repo (go/packages + go/ssa) and never build or run it; no hook commits exist', 'baseline_off_cmd': 'cd /repo && GOFLAGS=-mod=mod GOPROXY=off GOSUMDB=off GOTOOLCHAIN=local go test -json -vet=off -count=1 -timeout 25m ./...', 'source_commits': [], 'add_only': True},
- 'engines': [{'name': 'f2gcheck', 'path': 'checker/', 'serves_properties': [c['property_id'] for c in checks], 'kind_free_text': 'repository-specific static analyser (Go, x/tools go/packages + go/ssa + VTA call graph): typestate/guarded-path engine, value-provenance terms, symbolic range analysis, lockset analysis, crash-site inventory'}],
+ 'engines': [{'name': 'f2gcheck', 'path': 'checker/', 'serves_properties': [c['property_id'] for c in checks], 'kind_free_text': 'repository-specific static analyser (Go, x/tools go/packages + go/ssa + VTA call graph): typestate/guarded-path engine, value-provenance terms, symbolic range analysis, monotonicity analysis, units-of-measure inference, lockset analysis, crash-site inventory'}],
  'checks': checks,
  'not_applicable': na,
  'notes': 'Technique family: static analysis only. Known findings: KNOWN_FINDINGS.txt (finding:/fixed: lines). Seeded changes used to test the checks: seeded/. Repairs of genuine defects are the "fix:" commits in /repo.',
